@@ -296,8 +296,10 @@ func (s *streamRecorder) Write(p []byte) (int, error) {
 
 // census inspects the goroutine dump: number of live per-height goroutines of
 // handleEventDownloadBlock, how many of them are inside the 400 ms sleep of
-// downloadBlock, and whether the handler itself waits in wg.Wait.
-func census() (live, sleeping int, inWait bool) {
+// downloadBlock, how many are inside a request (downloadBlockFromPeerOld),
+// whether the handler itself is inside a request (checkTask), and whether it
+// waits in wg.Wait.
+func census() (live, sleeping, reading int, reading2, inWait bool) {
 	buf := make([]byte, 1<<20)
 	for {
 		n := runtime.Stack(buf, true)
@@ -310,6 +312,10 @@ func census() (live, sleeping int, inWait bool) {
 	for _, blk := range strings.Split(string(buf), "\n\n") {
 		if strings.Contains(blk, ".handleEventDownloadBlock.func1(") {
 			live++
+			if strings.Contains(blk, ".downloadBlockFromPeerOld(") {
+				reading++
+				continue
+			}
 			if i := strings.Index(blk, "time.Sleep("); i >= 0 {
 				rest := blk[i:]
 				// next frame after time.Sleep must be downloadBlock
@@ -320,8 +326,13 @@ func census() (live, sleeping int, inWait bool) {
 			}
 			continue
 		}
-		if strings.Contains(blk, ".handleEventDownloadBlock(") && strings.Contains(blk, "sync.(*WaitGroup).Wait(") {
-			inWait = true
+		if strings.Contains(blk, ".handleEventDownloadBlock(") {
+			if strings.Contains(blk, "sync.(*WaitGroup).Wait(") {
+				inWait = true
+			}
+			if strings.Contains(blk, ".downloadBlockFromPeerOld(") {
+				reading2 = true
+			}
 		}
 	}
 	return
